@@ -264,6 +264,17 @@ func ordinaryName(r *rand.Rand) string {
 	}
 }
 
+// boundaryID: mostly the short id, sometimes an id of the greatest permitted length or one below
+func boundaryID(r *rand.Rand, short string) string {
+	switch r.Intn(6) {
+	case 0:
+		return short + "-" + ident(r, 50-len(short)-1)
+	case 1:
+		return short + "-" + ident(r, 49-len(short)-1)
+	}
+	return short
+}
+
 func genC14(r *rand.Rand, n int, emit func(string)) {
 	for i := 0; i < n; i++ {
 		doc := M{}
@@ -271,14 +282,14 @@ func genC14(r *rand.Rand, n int, emit func(string)) {
 		if r.Intn(5) != 0 {
 			ks := []interface{}{}
 			for j := 0; j < 1+r.Intn(3); j++ {
-				ks = append(ks, validKey(r, fmt.Sprintf("key%d", j)))
+				ks = append(ks, validKey(r, boundaryID(r, fmt.Sprintf("key%d", j))))
 			}
 			doc["publicKey"] = ks
 		}
 		if r.Intn(4) != 0 {
 			ss := []interface{}{}
 			for j := 0; j < 1+r.Intn(3); j++ {
-				ss = append(ss, validService(r, fmt.Sprintf("svc%d", j)))
+				ss = append(ss, validService(r, boundaryID(r, fmt.Sprintf("svc%d", j))))
 			}
 			doc["service"] = ss
 		}
